@@ -157,78 +157,119 @@ func (m *Model) RunRegistry(s *Sink, rule string) {
 		return
 	}
 	ek := fnKey(ec)
-	// builtin lookup dominates the custom path
+	// builtin lookup dominates the custom path: the custom-function test (in evalCallExp or a private helper) is reached
+	// only after the builtin lookup missed — as a dominating fact, or as the false verdict of a helper that returns
+	// "not handled" only on the miss edge of that lookup
+	ecFns := m.helpersOf(ec)
+	inEc := map[*ssa.Function]bool{}
+	for _, f := range ecFns {
+		inEc[f] = true
+	}
+	isBuiltinOK := func(v ssa.Value) bool {
+		ex, ok := v.(*ssa.Extract)
+		if !ok || ex.Index != 1 {
+			return false
+		}
+		lk, ok := ex.Tuple.(*ssa.Lookup)
+		return ok && lk.CommaOk && strings.HasSuffix(types.TypeString(lk.X.Type(), nil), "object.Builtin")
+	}
 	var builtinOK ssa.Value
-	for _, b := range ec.Blocks {
-		for _, in := range b.Instrs {
-			if lk, ok := in.(*ssa.Lookup); ok && lk.CommaOk && strings.HasSuffix(types.TypeString(lk.X.Type(), nil), "object.Builtin") {
-				for _, rr := range *lk.Referrers() {
-					if ex, ok := rr.(*ssa.Extract); ok && ex.Index == 1 {
-						builtinOK = ex
-					}
+	var hcCall *ssa.Call
+	for _, f := range ecFns {
+		for _, b := range f.Blocks {
+			for _, in := range b.Instrs {
+				if v, ok := in.(ssa.Value); ok && isBuiltinOK(v) {
+					builtinOK = v
+				}
+				if c, ok := in.(*ssa.Call); ok && c.Call.StaticCallee() == hc {
+					hcCall = c
 				}
 			}
 		}
 	}
-	var hcCall *ssa.Call
-	for _, b := range ec.Blocks {
-		for _, in := range b.Instrs {
-			if c, ok := in.(*ssa.Call); ok && c.Call.StaticCallee() == hc {
-				hcCall = c
+	missVerdict := func(h *ssa.Function) bool { // every "false verdict" return of h lies on the miss edge of the builtin lookup
+		if h == nil || !inEc[h] || h.Blocks == nil {
+			return false
+		}
+		n := 0
+		for _, b := range h.Blocks {
+			if _, isRet := b.Instrs[len(b.Instrs)-1].(*ssa.Return); !isRet || isSuccessReturn(b) {
+				continue
+			}
+			n++
+			okMiss := false
+			for _, f := range expandFacts(factsAt(b)) {
+				if isBuiltinOK(f.Cond) && !f.Holds {
+					okMiss = true
+				}
+			}
+			if !okMiss {
+				return false
 			}
 		}
+		return n > 0
+	}
+	guard := func(b *ssa.BasicBlock) bool {
+		for _, f := range expandFacts(factsAt(b)) {
+			if isBuiltinOK(f.Cond) && !f.Holds {
+				return true
+			}
+			if vc := verdictCall(f.Cond); vc != nil && !f.Holds && missVerdict(vc.Call.StaticCallee()) {
+				return true
+			}
+		}
+		return false
 	}
 	switch {
 	case builtinOK == nil || hcCall == nil:
 		s.Undecided(rule, ek+"|built-in first", m.Pos(ec.Pos()), "builtin lookup or hasCustomFunc call not found in evalCallExp")
 	default:
-		dom := false
-		for _, f := range expandFacts(factsAt(hcCall.Block())) {
-			if f.Cond == builtinOK && !f.Holds {
-				dom = true
-			}
-		}
-		if dom {
+		if dom, _ := m.guardedLifting(hcCall, guard, 0); dom {
 			s.OK(rule, ek+"|built-in first", m.InstrPos(hcCall), "the custom-function lookup is reached only on the miss edge of the builtin lookup")
 		} else {
 			s.Violation(rule, ek+"|built-in first", m.InstrPos(hcCall), "custom functions are consulted without the builtin lookup having missed: a custom function could shadow a built-in of the same name")
 		}
 	}
 	// kind -> field agreement in hasCustomFunc and evalCallExp
-	for _, fn := range []*ssa.Function{hc, ec} {
+	ecSet := ecFns // evalCallExp and the private helpers its body is split into
+	for gi, group := range [][]*ssa.Function{{hc}, ecSet} {
 		seen := map[string]string{}
-		for _, b := range fn.Blocks {
-			for _, in := range b.Instrs {
-				lk, ok := in.(*ssa.Lookup)
-				if !ok || !isCustomFuncMap(lk.X.Type()) {
-					continue
-				}
-				p := fieldPathOf(lk.X)
-				field := p[strings.LastIndex(p, ".")+1:]
-				a := m.NewArith(fn)
-				kk := m.kindFacts(a, expandFacts(factsAt(b)))
-				kind := ""
-				for v, k := range kk.valConst {
-					_ = v
-					if _, isKind := kindField[k]; isKind {
-						kind = k
+		gfn := group[0]
+		_ = gi
+		for _, fn := range group {
+			for _, b := range fn.Blocks {
+				for _, in := range b.Instrs {
+					lk, ok := in.(*ssa.Lookup)
+					if !ok || !isCustomFuncMap(lk.X.Type()) {
+						continue
 					}
-				}
-				for _, k := range kk.kind {
-					if _, isKind := kindField[k]; isKind {
-						kind = k
+					p := fieldPathOf(lk.X)
+					field := p[strings.LastIndex(p, ".")+1:]
+					a := m.NewArith(fn)
+					kk := m.kindFacts(a, expandFacts(factsAt(b)))
+					kind := ""
+					for v, k := range kk.valConst {
+						_ = v
+						if _, isKind := kindField[k]; isKind {
+							kind = k
+						}
 					}
-				}
-				key := fmt.Sprintf("%s|%s table used for %s receivers", fnKey(fn), field, kind)
-				if kind == "" {
-					s.Undecided(rule, fmt.Sprintf("%s|%s table lookup", fnKey(fn), field), m.InstrPos(lk), "lookup in the %s table is not under a test of the receiver kind", field)
-					continue
-				}
-				seen[kind] = field
-				if kindField[kind] == field {
-					s.OK(rule, key, m.InstrPos(lk), "kind %s -> customFunc.%s", kind, field)
-				} else {
-					s.Violation(rule, key, m.InstrPos(lk), "%s consults customFunc.%s for receivers of kind %s (expected customFunc.%s): a function registered for one type is looked up under another", fnKey(fn), field, kind, kindField[kind])
+					for _, k := range kk.kind {
+						if _, isKind := kindField[k]; isKind {
+							kind = k
+						}
+					}
+					key := fmt.Sprintf("%s|%s table used for %s receivers", fnKey(fn), field, kind)
+					if kind == "" {
+						s.Undecided(rule, fmt.Sprintf("%s|%s table lookup", fnKey(fn), field), m.InstrPos(lk), "lookup in the %s table is not under a test of the receiver kind", field)
+						continue
+					}
+					seen[kind] = field
+					if kindField[kind] == field {
+						s.OK(rule, key, m.InstrPos(lk), "kind %s -> customFunc.%s", kind, field)
+					} else {
+						s.Violation(rule, key, m.InstrPos(lk), "%s consults customFunc.%s for receivers of kind %s (expected customFunc.%s): a function registered for one type is looked up under another", fnKey(fn), field, kind, kindField[kind])
+					}
 				}
 			}
 		}
@@ -240,7 +281,7 @@ func (m *Model) RunRegistry(s *Sink, rule string) {
 		}
 		sort.Strings(miss)
 		if len(miss) > 0 {
-			s.Violation(rule, fnKey(fn)+"|all five receiver types", m.Pos(fn.Pos()), "%s has no custom-function lookup for receiver kinds %v: functions registered for them are never callable", fnKey(fn), miss)
+			s.Violation(rule, fnKey(gfn)+"|all five receiver types", m.Pos(gfn.Pos()), "%s has no custom-function lookup for receiver kinds %v: functions registered for them are never callable", fnKey(gfn), miss)
 		}
 	}
 	// arguments by Val(), result by NativeToObject
@@ -262,10 +303,12 @@ func (m *Model) RunRegistry(s *Sink, rule string) {
 	}
 	nto := m.PkgFunc("object", "NativeToObject")
 	okRes := false
-	for _, b := range ec.Blocks {
-		for _, in := range b.Instrs {
-			if c, ok := in.(*ssa.Call); ok && c.Call.StaticCallee() == nto {
-				okRes = true
+	for _, fn := range ecSet {
+		for _, b := range fn.Blocks {
+			for _, in := range b.Instrs {
+				if c, ok := in.(*ssa.Call); ok && c.Call.StaticCallee() == nto {
+					okRes = true
+				}
 			}
 		}
 	}
@@ -276,7 +319,11 @@ func (m *Model) RunRegistry(s *Sink, rule string) {
 	}
 	// fall-through error names function and receiver type
 	okErr := false
-	for _, b := range ec.Blocks {
+	var ecBlocks []*ssa.BasicBlock
+	for _, fn := range ecSet {
+		ecBlocks = append(ecBlocks, fn.Blocks...)
+	}
+	for _, b := range ecBlocks {
 		ret, ok := b.Instrs[len(b.Instrs)-1].(*ssa.Return)
 		if !ok {
 			continue
